@@ -46,6 +46,11 @@ pub enum Ev {
     Released,
 }
 
+thread_local! {
+    /// set by the harness around a caller's `emit` on the queuing sink
+    pub static IN_CALLER_EMIT: std::cell::Cell<bool> = const { std::cell::Cell::new(false) };
+}
+
 #[derive(Default)]
 pub struct GateState {
     pub log: Vec<Ev>,
@@ -62,6 +67,8 @@ pub struct GateState {
     /// free-running mode with a repeating outcome pattern: metric #seq gets
     /// `open_cycle[seq % len]` (takes precedence over `open`)
     pub open_cycle: Option<Vec<StepOut>>,
+    /// number of times the wrapped sink's stats() was called from inside a caller's emit
+    pub stats_in_emit: usize,
 }
 
 #[derive(Default)]
@@ -201,6 +208,20 @@ impl MetricSink for GatedSink {
             StepOut::OkShort => Ok(if metric.len() >= 2 { (metric.len() / 2).max(1) } else { metric.len() }),
             StepOut::Err(k) => Err(util::token_error(k, seq as u64)),
             StepOut::Panic => panic!("{} (wrapped sink, metric #{})", HARNESS_PANIC, seq),
+        }
+    }
+
+    fn stats(&self) -> cadence::SinkStats {
+        self.note_stats();
+        cadence::SinkStats::default()
+    }
+}
+
+impl GatedSink {
+    fn note_stats(&self) {
+        if IN_CALLER_EMIT.with(|f| f.get()) {
+            let mut g = self.gate.lock();
+            g.stats_in_emit += 1;
         }
     }
 }
